@@ -20,7 +20,7 @@ class Prog:
         self.main = []
 
     # ---- printing
-    def source(self):
+    def _source(self):
         # [prefix]: preprocessor text in front of the program (groups that are not selected, ...)
         o = [self.prefix.rstrip('\n')] if getattr(self, 'prefix', None) else []
         for (t, n, init, alen, qual) in self.globals:
@@ -37,6 +37,13 @@ class Prog:
             o.append(fn_src(f))
         o.append('void main()\n' + stmt_src(('block', self.main), 0))
         return rename_ids('\n'.join(o) + '\n', getattr(self, 'rename', None))
+
+    def source(self):
+        MINIMAL_PARENS[0] = bool(getattr(self, 'minimal_parens', False))
+        try:
+            return self._source()
+        finally:
+            MINIMAL_PARENS[0] = False
 
 
 # alpha-renaming: a program whose variables and functions are called like a keyword followed by more letters
@@ -80,6 +87,12 @@ PREC = {',': 1, '=': 2, '?': 3, '||': 4, '&&': 5, '|': 6, '^': 7, '&': 8,
         '==': 9, '!=': 9, '<': 9, '<=': 9, '>': 9, '>=': 9, '<<': 10, '>>': 10, '+': 11, '-': 11, '*': 12, '/': 12}
 
 
+# C's precedence levels of the binary operators (higher binds tighter; all left-associative)
+C_PREC = {'*': 12, '/': 12, '+': 11, '-': 11, '<<': 10, '>>': 10, '<': 9, '<=': 9, '>': 9, '>=': 9, '==': 8, '!=': 8,
+          '&': 7, '^': 6, '|': 5, '&&': 4, '||': 3, ',': 0}
+MINIMAL_PARENS = [False]
+
+
 def expr_src(e, ctx=0):
     """fully parenthesised below the top level: the meaning never depends on the compiler's own
     precedence table (C10/C01 test precedence separately)"""
@@ -94,6 +107,20 @@ def expr_src(e, ctx=0):
         return '*%s' % e[1]
     if k == 'addr':
         return '&%s' % e[1]
+    if k == 'bin' and MINIMAL_PARENS[0]:
+        # C's own precedence decides: parentheses only where the tree differs from the way C reads the text
+        me = C_PREC[e[1]]
+
+        def side(x, right):
+            t = expr_src(x, 1)
+            if x[0] == 'bin':
+                px = C_PREC[x[1]]
+                need = px < me or (right and px == me)
+                t = expr_src(x, 0)
+                return '(' + t + ')' if need else t
+            return t
+        s = '%s %s %s' % (side(e[2], False), e[1], side(e[3], True))
+        return '(' + s + ')' if ctx == 2 else s
     if k == 'bin':
         s = '%s %s %s' % (expr_src(e[2], 1), e[1], expr_src(e[3], 1))
         return '(' + s + ')' if ctx else s
@@ -963,6 +990,39 @@ def directed_programs():
             mk('P_%s_%s' % (tn, sn), [setp, asg(V('Y'), N(k)), asg(V('X'), N(5)), asg(V('c'), ('idx', 'p', V('Y')))] + store + [asg(V('d'), ('idx', 'p', V('Y')))], extra=PTR)
             mk('P2_%s_%s' % (tn, sn), [setp, asg(V('Y'), N(k)), asg(V('X'), N(5)), ('if', ('idx', 'p', V('Y')), asg(V('c'), N(1)), None)] + store +
                                          [('if', ('bin', '==', ('idx', 'p', V('Y')), N(5)), asg(V('d'), N(1)), asg(V('d'), N(2)))], extra=PTR)
+    # Q. conditions with a constant operand under && / || (configuration macros), used as VALUES: the condition of
+    #    ?: and the operand of ! (contexts that fold constants), next to the statement contexts
+    qc = [('or0', ('bin', '||', V('a'), N(0))), ('or1', ('bin', '||', V('a'), N(1))), ('0or', ('bin', '||', N(0), V('a'))), ('1or', ('bin', '||', N(1), V('a'))),
+          ('and1', ('bin', '&&', V('a'), N(1))), ('and0', ('bin', '&&', V('a'), N(0))), ('1and', ('bin', '&&', N(1), V('a'))), ('0and', ('bin', '&&', N(0), V('a'))),
+          ('or0or', ('bin', '||', ('bin', '||', V('a'), N(0)), V('b'))), ('orand1', ('bin', '||', V('a'), ('bin', '&&', V('b'), N(1)))),
+          ('and_or0', ('bin', '&&', V('a'), ('bin', '||', V('b'), N(0)))), ('cmp_or0', ('bin', '||', ('bin', '<', V('a'), V('b')), N(0)))]
+    for cn, cnd in qc:
+        mk('Q_tern_%s' % cn, [asg(V('d'), ('tern', cnd, N(1), N(2)))])
+        mk('Q_ternvar_%s' % cn, [asg(V('d'), ('tern', cnd, V('b'), V('c')))])
+        mk('Q_nottern_%s' % cn, [asg(V('d'), ('tern', ('un', '!', cnd), N(2), N(1)))])
+        mk('Q_not_%s' % cn, [asg(V('d'), ('un', '!', cnd)), asg(V('c'), cnd)])
+        mk('Q_if_%s' % cn, [('if', cnd, asg(V('d'), N(1)), asg(V('d'), N(2))), ('if', ('un', '!', cnd), asg(V('c'), N(1)), asg(V('c'), N(2)))])
+        mk('Q_s16_%s' % cn, [asg(V('s'), ('tern', cnd, N(1000), N(300)))])
+    # R. precedence: `a op1 b op2 c` written WITHOUT parentheses, for every pair of binary operators, in an assignment,
+    #    in the initialiser of a local variable (parsed with its own operator table) and in a condition; the tree is
+    #    the one C prescribes
+    rops = ['+', '-', '<<', '>>', '<', '>=', '==', '!=', '&', '^', '|', '&&', '||']
+    for o1 in rops:
+        for o2 in rops:
+            right = (lambda o: N(1) if o in ('<<', '>>') else None)
+            x1, x2, x3 = V('a'), right(o1) or V('b'), right(o2) or V('c')
+            if C_PREC[o1] >= C_PREC[o2]:
+                tree = ('bin', o2, ('bin', o1, x1, x2), x3)
+            else:
+                tree = ('bin', o1, x1, ('bin', o2, x2 if o1 not in ('<<', '>>') else N(1), x3))
+                if o1 in ('<<', '>>'):
+                    continue      # a shift by an expression is not supported
+            tag = '%s_%s' % (rops.index(o1), rops.index(o2))
+            mk('R_asg_' + tag, [asg(V('d'), tree)])
+            mk('R_local_' + tag, [('local', 'unsigned char', 'lx', tree), asg(V('d'), V('lx'))])
+            mk('R_cond_' + tag, [('if', tree, asg(V('d'), N(1)), asg(V('d'), N(2)))])
+            for nm in ('R_asg_' + tag, 'R_local_' + tag, 'R_cond_' + tag):
+                out[nm].minimal_parens = True
     for n_, x in enumerate(('s', 't')):
         mk('N_first16_%s' % x, [('if', V('a'), asg(V('a'), N(7)), None), asg(V(x), N(500)), asg(V('b'), ('bin', '+', V(x), N(1))),
                                 asg(V('s' if x == 't' else 't'), ('bin', '+', V(x), N(300)))])
